@@ -67,6 +67,16 @@ def welltyped_rule(g, rg, doc):
                 l.args, l.kwargs = [g.r.choice([int, str, list, dict])], {}
         if l.args and len(l.args) > 4:
             l.args = l.args[:4]
+    if g.r.random() < 0.12:
+        # an argument given as a data path (mostly with a datum modifier) into the same hostile document: whatever it finds there (nothing,
+        # a node of the wrong type for the modifier) fails or skips the nodes, it never makes validation raise
+        for l in rt.cond.leaves():
+            if l.args and l.method in ("equal_to", "not_equal_to", "less_than", "greater_than", "less_than_or_equal_to", "greater_than_or_equal_to") \
+                    and "DataType" not in l.cls:
+                pa = rg.pg.path(doc, max_len=2, mods_p=0.0)
+                pa.mods = [g.r.choice(["length", "map_keys", "map_values", "dtype", "length"])] if g.r.random() < 0.8 else []
+                l.args = [pa]
+                break
     return rt
 
 
